@@ -372,7 +372,7 @@ Proof.
       destruct H0 as [[tp (I0 & A0 & B0 & C0)]|[Z1 Z2]].
       * left. exists tp. rewrite Hne. repeat split; try congruence; lia.
       * right. rewrite Hne. split; lia.
-  - cbn [fst]. apply keeps_counts_ok; [exact I|apply keeps_counts_clients].
+  - destruct (find_client s k); cbn [fst]; (apply keeps_counts_ok; [exact I|]); [apply keeps_counts_refl|apply keeps_counts_clients].
   - destruct (find_client s k) as [kl|]; cbn [fst]; [|apply keeps_counts_ok; [exact I|apply keeps_counts_refl]].
     destruct ((k_state kl =? st_init) && k_alive kl); cbn [fst]; (apply keeps_counts_ok; [exact I|]); [|apply keeps_counts_refl].
     eapply keeps_counts_trans; [|apply keeps_counts_pump_topic].
